@@ -414,6 +414,13 @@ func c06Protected(c *Ctx, sx *symx.Ctx) {
 			}
 		}
 	}
+	// the two-list form: the scorer returns the protected terms and the rest separately
+	if fn == nil && ff == nil && ffSplit == nil {
+		if s2, tp, ip := c06TwoListScorer(c); s2 != nil {
+			c06TwoListForm(c, s2, tp, ip)
+			return
+		}
+	}
 	fk := "database.scoreTerms"
 	if fn != nil {
 		fk = load.FuncKey(fn)
